@@ -33,6 +33,7 @@ B0 = [10.0, 20.0, 30.0]
 class Model:
     def __init__(self, kind="dict"):
         self.cols = {"a": list(A0), "b": list(B0_MIXED if kind == "dict_mixed" else B0)}
+        self.kept = None            # a bigarray the caller obtained earlier and still holds
 
     @property
     def nrows(self):
@@ -196,6 +197,19 @@ def op_table():
         if got.shape != want.shape or not np.array_equal(got, want):
             raise AssertionError("bigarray differs from the columns: %r vs %r" % (got.tolist(), want.tolist()))
     add("get_bigarray", lambda m: True, f_getbig)
+
+    def f_keepbig(cf, m, w):
+        m.kept = cf.bigarray
+    add("get_bigarray_and_keep_it", lambda m: m.kept is None, f_keepbig)
+
+    def f_setkept(cf, m, w):
+        # the caller hands back the array it was given earlier, after whatever happened to the table in between: the table becomes
+        # that array (its present values, its number of rows)
+        k = m.kept
+        cf.bigarray = k
+        for q, t in enumerate(list(m.cols)):
+            m.cols[t] = np.asarray(k[q], float).tolist()
+    add("set_bigarray_to_the_kept_one", lambda m: m.kept is not None and len(m.kept) == len(m.cols), f_setkept)
 
     def f_setbig(cf, m, w):
         new = [fresh(m.nrows, 6 + k) for k, t in enumerate(m.cols)]
@@ -380,6 +394,11 @@ def canon(cf, m):
                     bool(getattr(col, "flags", None) is not None and col.flags.owndata)))
     big = cf.__dict__.get("_columnfile__bigarray", None)
     sig.append(("big", big is None, big is d, (len(big) if big is not None else -1)))
+    k = m.kept
+    if k is not None:
+        # the kept array is part of the state: its values, and how it relates to what the table holds now
+        sig.insert(-1, ("kept", tuple(tuple(np.asarray(x, float).ravel().tolist()) for x in k), k is big, k is d,
+                        tuple(bool(np.ndim(c_) and np.shares_memory(np.asarray(x), c_)) for x, c_ in zip(k, d)) if len(k) == len(d) else None))
     return tuple(sig)
 
 
